@@ -273,11 +273,11 @@ class C09(PropCheck):
     def generate(self):
         r = self.rng
         k = 1 if self.tier == 'quick' else 12
-        for _ in range(240 * k):
+        for _ in range(600 * k):
             yield self.gen_met(r)
-        for _ in range(90 * k):
+        for _ in range(220 * k):
             yield self.gen_nuts(r)
-        for _ in range(12 * k):          # dedicated stream: adaptation ends on the last iteration
+        for _ in range(30 * k):          # dedicated stream: adaptation ends on the last iteration
             yield self.gen_nuts(r, edge=True)
         yield dict(alg='moments', seed=12345)
 
